@@ -1390,8 +1390,28 @@ def readBatchWithModelRow (sc : List String) : List String :=
       (if b.hasMsgs && !b.empty then ["newMessageSetReader"] else []) ++
       [if s0.rlock.isSome then "return:batchHoldingTheLock" else "return:batchWithErrorOnly"]
 
+/-- (*Batch).close, for each class of the batch's sticky error: the message-set reader (when there is one) is
+discarded, the conn is closed exactly when `BatchBytes.batchClose` says it is not kept, and the read lock is given back
+in every case (ConnMux: `finish` always clears `rlock`) -/
+def batchCloseModelRow (sc : List String) : List String :=
+  let err : Option BatchBytes.BErr :=
+    if sc.contains "err=nil" then none
+    else if sc.contains "err=eof" then some .eof
+    else if sc.contains "err=kafka" then some (.kafka 7)
+    else if sc.contains "err=short" then some .shortBuffer
+    else some .other
+  let body := sampleFetchBody 5
+  let b : BatchBytes.BSt :=
+    { rs := ⟨body, body.length⟩, pending := none, offset := 0, err := err, hasMsgs := flag sc "hasMsgs", empty := false }
+  let (_, rs', kept) := BatchBytes.batchClose b
+  let unlocked := match run [⟨1, 0⟩] [.write 0 true 1, .take 1, .finish 1 (if kept then .ok else .io)] with
+    | some s => s.rlock.isNone
+    | none => false
+  (if rs' != b.rs then ["discard"] else []) ++ (if kept then [] else ["closeConn"]) ++ (if unlocked then ["unlock"] else [])
+
 /-- the extracted decision tables are the models' transitions -/
 theorem flow_tables_are_the_models :
+    Gen.MuxFacts.batchCloseFlow.all (fun (sc, eff) => batchCloseModelRow sc == eff) = true ∧
     Gen.MuxFacts.apiVersionsFlow.all (fun (sc, eff) => apiVersionsModelRow sc == eff) = true ∧
     Gen.MuxFacts.readBatchWithFlow.all (fun (sc, eff) => readBatchWithModelRow sc == eff) = true ∧
     Gen.MuxFacts.releaseConnFlow.all (fun (sc, eff) => releaseConnModelRow sc == eff) = true ∧
